@@ -338,6 +338,7 @@ def _translate():
 # region (3) seeded edits: catalogue
 
 LICENSE_LINES = 20
+SIG_EXPLICIT_CTOR_LEAK = 'ExplicitCtorValidator:state-survives-reset-when-the-previous-file-ends-inside-an-explicit-constructor'
 
 
 def _width(line):
@@ -470,24 +471,35 @@ class CarriageReturn(Family):
 
 
 class LongLine(Family):
-	"""Pads a line with a comment to exactly `width` columns (tabs count 4)."""
+	"""Pads a line with a comment to exactly `limit + delta` columns, every tab counting 4 columns wherever it stands (the rule of
+	LineLengthValidator). `tab`: None - the padding has no tab; 'aligned' / 'unaligned' - the comment is set off by a tab that starts at
+	a column that is / is not a multiple of 4 (after 0-3 blanks), so that "4 per tab" and "tab stops" give different widths."""
 
-	def __init__(self, limit, delta):
+	def __init__(self, limit, delta, tab=None):
 		self.limit = limit
 		self.delta = delta
-		self.name = f'line-length:{"limit" if 0 == delta else ("limit%+d" % delta)}'
+		self.tab = tab
+		self.name = f'line-length:{"limit" if 0 == delta else ("limit%+d" % delta)}' + (f':tab-at-{tab}-column' if tab else '')
 
 	def candidates(self, lines, relpath):
 		return [
 			index for index, line in enumerate(lines[:-1])
-			if index >= LICENSE_LINES and line.strip() and _width(line) + 5 <= self.limit + self.delta and '\\' != line[-1] and '"' not in line and 'region' not in line]
+			if index >= LICENSE_LINES and line.strip() and _width(line) + 12 <= self.limit + self.delta and '\\' != line[-1] and '"' not in line and 'region' not in line]
 
 	def apply(self, lines, site, rng):
 		line = lines[site]
 		target = self.limit + self.delta
-		new_line = line + ' // ' + 'x' * (target - _width(line) - 4)
+		if self.tab is None:
+			new_line = line + ' // ' + 'x' * (target - _width(line) - 4)
+		else:
+			column = len(line.expandtabs(4))
+			aligned = (-column) % 4
+			blanks = aligned if 'aligned' == self.tab else rng.choice([count for count in range(4) if count != aligned])
+			head = line + ' ' * blanks + '\t// '
+			new_line = head + 'x' * (target - _width(head))
 		assert _width(new_line) == target
-		return _replace(lines, site, new_line), {'group': 'tooLongLines', 'lineno': site + 1, 'kind': None, 'absent': self.delta < 0}
+		return _replace(lines, site, new_line), {
+			'group': 'tooLongLines', 'lineno': site + 1, 'kind': None, 'absent': self.delta < 0, 'seeded_line': new_line}
 
 
 class ConsecutiveEmpty(Family):
@@ -904,7 +916,9 @@ def build_catalogue(entries, constants):
 	limit = constants['lineLengthLimit']
 	families = [
 		TrailingSpace(), LeadingSpaces(), TabsInEmptyLine(), TabInside(), DoubleSpace(), CommaWithoutSpace(), CarriageReturn(),
-		LongLine(limit, 0), LongLine(limit, -1), LongLine(limit, 7),
+		LongLine(limit, 0), LongLine(limit, -1), LongLine(limit, 1), LongLine(limit, 7),
+		LongLine(limit, 0, 'aligned'), LongLine(limit, -1, 'aligned'), LongLine(limit, 1, 'aligned'),
+		LongLine(limit, 0, 'unaligned'), LongLine(limit, -1, 'unaligned'), LongLine(limit, 1, 'unaligned'),
 		ConsecutiveEmpty(), BlankNearEnd(), IncludeSwap(), FirstInclude(), DirectiveIndent(),
 		PragmaOnceMissing(), PragmaOnceEmptyLine(), LicenseEdit(), LicenseMissing(),
 		RegionUnclosed(), RegionOrphanEnd(), RegionTypo(), RegionNested(),
@@ -1114,8 +1128,10 @@ def run_chunk(cases):
 			if after_dirty != alone:
 				extra = [report for report in after_dirty if report not in alone]
 				missing = [report for report in alone if report not in after_dirty]
+				only_explicit_ctor = all('explicitCtorChecker' == report[0] for report in extra + missing)
 				result['failures'].append((
-					'property', f'reports depend on the file linted before ({previous[1]["relpath"]}, {previous[1]["name"]}): missing {missing[:4]}, additional {extra[:4]}'))
+					'property', f'reports depend on the file linted before ({previous[1]["relpath"]}, {previous[1]["name"]}): missing {missing[:4]}, additional {extra[:4]}',
+					SIG_EXPLICIT_CTOR_LEAK if only_explicit_ctor else None))
 				result['dirty'] = previous[1]
 			result['leak_checked'] = True
 		if previous is not None:
@@ -1599,6 +1615,9 @@ def run(ctx):
 		if ctx.driver:
 			model_requests.sort(key=lambda item: 0 if item[0].get('context') in ('prev:backslash', 'in:macro') else 1)  # those first (stable)
 			for case, modelled in model_requests[:ctx.scale(90, 1200)]:
+				if any(report[0] in ('crash', 'parser-abort') for report in modelled['reports']):
+					ctx.count('model-lint:skipped:the-linter-aborted-on-the-seeded-file')  # finalize() never ran: nothing to compare
+					continue
 				answer = ctx.driver.ask(f'lint {sx(modelled["path"])} {sx(modelled["text"])}')
 				ctx.count('model-lint:seeded-files')
 				if model_view(answer, entries, constants['mccMessages']) != modelled_view(modelled['reports'], entries):
